@@ -173,9 +173,9 @@ def run_plan(plan: dict, replay=None) -> dict:
         la, lb = jax.tree_util.tree_leaves(a), jax.tree_util.tree_leaves(b)
         if len(la) != len(lb) or any(not onp.array_equal(x, y, equal_nan=True) for x, y in zip(la, lb)):
             viol.append(dict(clause="c13-compiled-final-state-differs-with-recording", signature="c13-comp-state", compile=cc))
-        crec = out1.aux["record"]
+        crec = out1.aux.get("record")
         ev_idx, _ = index_events(ev1)
-        for nme in names:
+        for nme in (names if crec is not None else ()):
             steps = crec.nodes[nme].steps
             seqs = onp.asarray(steps.seq)
             input_names = sorted(nodes[nme].inputs.keys())
